@@ -283,6 +283,16 @@ func (c *Conn) ReadMarks() []Mark {
 	return append([]Mark(nil), h.rmarks...)
 }
 
+// Dead tells whether the connection was closed by either side or reset.
+func (c *Conn) Dead() bool {
+	if c.isClosed() || c.peer.isClosed() {
+		return true
+	}
+	c.rd.mu.Lock()
+	defer c.rd.mu.Unlock()
+	return c.rd.reset
+}
+
 // Unread returns how many bytes are buffered towards this side.
 func (c *Conn) Unread() int {
 	c.rd.mu.Lock()
